@@ -2,7 +2,7 @@
    declares the starting LIB number), handler never fails.  All trees, all arrival orders,
    duplicates, all-blocks-trigger or not, any retention, any first-streamable block. *)
 From BV Require Import Base.Prelude Model.Block Model.ForkDB Model.Forkable Spec.Consumer
-  Proofs.Fk.StoreFacts Proofs.Fk.WalkFacts Proofs.Fk.LoopFacts.
+  Proofs.Fk.StoreFacts Proofs.Fk.WalkFacts Proofs.Fk.LoopFacts Proofs.Fk.StoreChange Proofs.Fk.SwitchFacts.
 Local Open Scope N_scope.
 
 Section FixedLib.
@@ -100,4 +100,363 @@ Section FixedLib.
     - destruct H as (p & Hc & -> & _). rewrite Hl in Hc. exists p. rewrite app_nil_r. auto.
     - intros e' He'. rewrite Hf in He'. congruence.
   Qed.
+
+  (* ---------------------------------------------------------------- the invariant *)
+
+  Definition lc (l : list entry) : Prop :=
+    forall e, In e l -> esent e = true ->
+      bparent (eb e) = ri r0 \/ exists p, find (bparent (eb e)) l = Some p /\ esent p = true.
+
+  Record Inv (s : fstate) (S : cstack) : Prop := mkInv {
+    i_nodup : NoDup (keys (store (db s)));
+    i_inU : in_U (store (db s));
+    i_lib : lib_db (db s);
+    i_lc : lc (store (db s));
+    i_head : match last_sent s with
+             | None => S = [] /\ forall e, In e (store (db s)) -> esent e = false
+             | Some hd => In hd U /\
+                          exists p, chain (store (db s)) (bid hd) (ri r0) p /\ p <> [] /\
+                                    map eb p = rev S /\ Forall (fun e => esent e = true) p
+             end
+  }.
+
+  Lemma inv_init : Inv (fs_init (LExcl r0)) [].
+  Proof.
+    constructor; cbn.
+    - constructor.
+    - intros e [].
+    - split; reflexivity.
+    - intros e [].
+    - split; [reflexivity | intros e []].
+  Qed.
+
+  Lemma has_lib_r0 d : lib_db d -> has_lib d = true.
+  Proof.
+    intros [H _]. unfold has_lib. rewrite H. unfold Block.ref_eqb, ref_empty. cbn [ri rn].
+    destruct (N.eqb_spec (ri r0) 0); [contradiction|]. reflexivity.
+  Qed.
+
+  (* a block of U that is stored is stored as itself *)
+  Lemma stored_is_self l b e : in_U l -> In b U -> find (bid b) l = Some e -> eb e = b.
+  Proof.
+    intros HU Hb Hf. pose proof (find_some _ _ _ Hf) as [Hin Hk].
+    apply U_uniq; [apply HU; exact Hin | exact Hb | exact Hk].
+  Qed.
+
+  (* ---------------------------------------------------------------- ProcessBlock, unfolded for this configuration *)
+
+  Definition new_db (d : forkdb) (b : block) : forkdb :=
+    mkDB (store d ++ [mkEntry b false]) (extra d) (libref d).
+
+  Lemma add_link_new d b : In b U -> find (bid b) (store d) = None ->
+    add_link d b = (new_db d b, false).
+  Proof.
+    intros Hb Hf. destruct (U_id b Hb) as (H1 & H2 & H3).
+    unfold add_link. destruct (N.eqb_spec (bid b) (bparent b)); [contradiction|].
+    destruct (N.eqb_spec (bid b) 0); [contradiction|]. cbn [orb].
+    unfold exists_link, link_of. rewrite Hf. cbn.
+    unfold new_db. f_equal. f_equal. apply put_keys_new. apply find_none. exact Hf.
+  Qed.
+
+  Lemma add_link_old d b e : in_U (store d) -> In b U -> find (bid b) (store d) = Some e ->
+    add_link d b = (d, true).
+  Proof.
+    intros HU Hb Hf. destruct (U_id b Hb) as (H1 & H2 & H3).
+    unfold add_link. destruct (N.eqb_spec (bid b) (bparent b)); [contradiction|].
+    destruct (N.eqb_spec (bid b) 0); [contradiction|]. cbn [orb].
+    unfold exists_link, link_of. rewrite Hf.
+    rewrite (stored_is_self _ _ _ HU Hb Hf).
+    destruct (N.eqb_spec (bparent b) 0); [contradiction|]. reflexivity.
+  Qed.
+
+  Definition sw_of (s : fstate) (b : block) : scss_result :=
+    if f_undo (c_filter cfg) && triggers cfg s b then
+      match last_sent s with
+      | Some ls => sent_chain_switch_segments (db s) (bid ls) (bparent b)
+      | None => ScssOk [] [] None
+      end
+    else ScssOk [] [] None.
+
+  Definition dropped (s : fstate) (b : block) : bool :=
+    (bnum b <? rn (libref (db s))) && (match last_sent s with Some _ => true | None => false end).
+
+  Lemma fk_step_new s b undos redos junc :
+    lib_db (db s) -> In b U -> find (bid b) (store (db s)) = None -> dropped s b = false ->
+    sw_of s b = ScssOk undos redos junc ->
+    fk_step cfg s b =
+      let s1 := with_db s (new_db (db s) b) in
+      match reversible_segment (new_db (db s) b) first (bref b) with
+      | None => (s1, [], RFuel)
+      | Some (longest, _) =>
+          if negb (triggers cfg s b) || (match longest with [] => true | _ => false end) then (s1, [], ROk)
+          else process_tail cfg s1 b undos redos junc longest None
+      end.
+  Proof.
+    intros Hl Hb Hf Hd Hsw. destruct (U_id b Hb) as (H1 & H2 & H3).
+    unfold fk_step. destruct (N.eqb_spec (bid b) (bparent b)); [contradiction|].
+    unfold dropped in Hd. rewrite Hd, Hincl. cbn [andb].
+    unfold sw_of in Hsw. rewrite Hsw.
+    rewrite (add_link_new _ _ Hb Hf).
+    assert (Hhl : has_lib (new_db (db s) b) = true).
+    { apply has_lib_r0. destruct Hl as [Ha Hb']. split; cbn; assumption. }
+    rewrite Hhl. cbn [with_db db].
+    destruct (reversible_segment (new_db (db s) b) first (bref b)) as [[longest reach]|]; reflexivity.
+  Qed.
+
+  Lemma fk_step_old s b e : in_U (store (db s)) -> In b U -> find (bid b) (store (db s)) = Some e ->
+    wf_store (store (db s)) ->
+    fk_step cfg s b = (s, [], ROk).
+  Proof.
+    intros HU Hb Hf Hwf. destruct (U_id b Hb) as (H1 & H2 & H3).
+    unfold fk_step. destruct (N.eqb_spec (bid b) (bparent b)); [contradiction|].
+    destruct ((bnum b <? rn (libref (db s))) && match last_sent s with Some _ => true | None => false end); [reflexivity|].
+    rewrite Hincl. cbn [andb].
+    assert (Hsw : exists u r j, (if f_undo (c_filter cfg) && triggers cfg s b
+             then match last_sent s with Some ls => sent_chain_switch_segments (db s) (bid ls) (bparent b) | None => ScssOk [] [] None end
+             else ScssOk [] [] None) = ScssOk u r j).
+    { destruct (f_undo (c_filter cfg) && triggers cfg s b); [|eauto].
+      destruct (last_sent s) as [ls|]; [apply scss_total; exact Hwf | eauto]. }
+    destruct Hsw as (u & r & j & ->).
+    rewrite (add_link_old _ _ _ HU Hb Hf). reflexivity.
+  Qed.
+
+  (* ---------------------------------------------------------------- the tail of ProcessBlock *)
+
+  Lemma process_tail_ok s1 b undos redos junc longest :
+    lib_db (db s1) -> longest <> [] ->
+    (* the declared LIB of the new head resolves to the LIB itself: nothing becomes irreversible *)
+    (forall d ls, store d = mark_all (store (db s1)) (unsent longest) -> extra d = extra (db s1) -> libref d = libref (db s1) ->
+        In ls (map (fun sg => eb (sent sg)) (unsent longest)) \/ last_sent s1 = Some ls ->
+        block_in_chain d (bref ls) (blib ls) = Some (mkR (ri r0) (rn r0))) ->
+    exists s3 evU evR evN,
+      process_tail cfg s1 b undos redos junc longest None = (s3, evU ++ evR ++ evN, ROk) /\
+      map eblk evU = map eb undos /\ Forall (fun e => estep e = SUndo) evU /\
+      map eblk evR = map eb redos /\ Forall (fun e => estep e = SNew) evR /\
+      map eblk evN = map (fun sg => eb (sent sg)) (unsent longest) /\ Forall (fun e => estep e = SNew) evN /\
+      store (db s3) = mark_all (store (db s1)) (unsent longest) /\
+      extra (db s3) = extra (db s1) /\ libref (db s3) = libref (db s1) /\
+      last_sent s3 = match rev (unsent longest) with sg :: _ => Some (eb (sent sg)) | [] => last_sent s1 end.
+  Proof.
+    intros Hl Hne Htail. unfold process_tail. rewrite Hundo, Hnew.
+    destruct (process_blocks_ok cfg Hnofail b undos SUndo junc s1) as (sa & evU & -> & (Ha1 & Ha2 & Ha3) & HmU & HsU).
+    cbn [negb].
+    destruct (process_blocks_ok cfg Hnofail b redos SNew None sa) as (sb & evR & -> & (Hb1 & Hb2 & Hb3) & HmR & HsR).
+    cbn [negb].
+    unfold process_new_blocks. destruct longest as [|b0 lrest] eqn:Hlong; [congruence|]. rewrite <- Hlong in *.
+    destruct (process_new_loop_ok cfg Hnofail Hnew (seg_ref (last longest b0)) longest sb []) as
+      (s3 & evN & Hrun & HmN & HsN & Hst & Hex & Hlib & Hlls & Hlast).
+    cbn [app] in Hrun. rewrite Hlong in Hrun at 1. rewrite <- Hlong in Hrun. rewrite Hrun. cbn [negb].
+    rewrite Hb1, Ha1 in Hst, Hex, Hlib. rewrite Hb2, Ha2 in Hlast.
+    exists s3, evU, evR, evN.
+    (* the LIB part of the tail is a no-op *)
+    assert (Hno : match last_sent s3 with
+                  | None => True
+                  | Some ls => block_in_chain (db s3) (bref ls) (blib ls) = Some (mkR (ri r0) (rn r0))
+                  end).
+    { destruct (last_sent s3) as [ls|]; [|exact I].
+      apply Htail; try assumption.
+      destruct (rev (unsent longest)) as [|sg t] eqn:R.
+      - right. symmetry. exact Hlast.
+      - left. injection Hlast as Hlast. subst ls. apply (in_map (fun x => eb (sent x))). apply in_rev. rewrite R. left. reflexivity. }
+    assert (Hhl : has_lib (db s3) = true).
+    { apply has_lib_r0. destruct Hl as [A B]. split; congruence. }
+    destruct (last_sent s3) as [ls|] eqn:Els.
+    - rewrite Hhl. cbn [negb]. rewrite Hno. cbn [ri].
+      destruct (N.eqb_spec (ri r0) 0); [contradiction|].
+      unfold has_new_irr_segment. rewrite Hlib. destruct Hl as [A B]. rewrite A. cbn [ri]. rewrite N.eqb_refl.
+      cbn [negb andb]. repeat split; try assumption; try congruence.
+    - repeat split; try assumption; try congruence.
+  Qed.
+
+  Lemma num_of_lib d : lib_db d -> in_U (store d) -> num_of d (ri r0) = Some (rn r0).
+  Proof.
+    intros [Hl He] HU. unfold num_of. destruct (find (ri r0) (store d)) as [e|] eqn:F.
+    - pose proof (find_some _ _ _ F) as [Hin Hk]. rewrite (L_num _ (HU e Hin) Hk). reflexivity.
+    - rewrite He, N.eqb_refl. reflexivity.
+  Qed.
+
+  Lemma bic_loop_to_lib d : lib_db d -> in_U (store d) -> NoDup (keys (store d)) ->
+    forall x y p, chain (store d) x y p -> y = ri r0 -> p <> [] ->
+    forall f, enough (store d) x f -> bic_loop f d x (rn r0) = Some (mkR (ri r0) (rn r0)).
+  Proof.
+    intros Hl HU Hnd x y p Hc. pose proof (wf_of_U _ Hnd HU) as Hwf.
+    induction Hc as [x|x y e p Hne Hf Hc IH]; intros Hy Hp f He; [congruence|]. subst y.
+    destruct f as [|f]; [destruct He; lia|]. cbn [bic_loop]. rewrite (link_of_stored d x e Hf).
+    destruct p as [|e' p'] using rev_ind.
+    - apply chain_nil_inv in Hc. rewrite Hc, (num_of_lib d Hl HU), N.eqb_refl. reflexivity.
+    - clear IHp'. destruct (chain_snoc_inv _ _ _ _ _ Hc) as (_ & Hf' & _).
+      unfold num_of. rewrite Hf'.
+      assert (Hab : rn r0 < bnum (eb e')).
+      { eapply above; [exact HU | exact Hnd | exact Hc | apply in_or_app; right; left; reflexivity]. }
+      destruct (N.eqb_spec (bnum (eb e')) (rn r0)); [lia|].
+      destruct (N.ltb_spec (bnum (eb e')) (rn r0)); [lia|].
+      apply IH; [reflexivity | destruct p'; discriminate | eapply enough_parent; eassumption].
+  Qed.
+
+  Lemma bic_to_lib d x e p : lib_db d -> in_U (store d) -> NoDup (keys (store d)) ->
+    find x (store d) = Some e -> chain (store d) x (ri r0) p -> p <> [] ->
+    block_in_chain d (mkR x (bnum (eb e))) (rn r0) = Some (mkR (ri r0) (rn r0)).
+  Proof.
+    intros Hl HU Hnd Hf Hc Hp. unfold block_in_chain. cbn [rn ri].
+    assert (Hab : rn r0 < bnum (eb e)).
+    { destruct p as [|e' p'] using rev_ind; [congruence|]. clear IHp'.
+      destruct (chain_snoc_inv _ _ _ _ _ Hc) as (_ & Hf' & _). rewrite Hf in Hf'. injection Hf' as <-.
+      eapply above; [exact HU | exact Hnd | exact Hc | apply in_or_app; right; left; reflexivity]. }
+    destruct (N.eqb_spec (bnum (eb e)) (rn r0)); [lia|].
+    eapply bic_loop_to_lib; try eassumption; [reflexivity | apply enough_fuel_of].
+  Qed.
+
+  (* ---------------------------------------------------------------- storing a new block keeps the invariant *)
+
+  Lemma keys_snoc l en : keys (l ++ [en]) = keys l ++ [key en].
+  Proof. unfold keys. rewrite map_app. reflexivity. Qed.
+
+  Lemma inv_add s S b : Inv s S -> In b U -> find (bid b) (store (db s)) = None ->
+    Inv (with_db s (new_db (db s) b)) S.
+  Proof.
+    intros HI Hb Hf. destruct HI as [Hnd HU Hl Hlc Hh].
+    assert (Hk : ~ In (bid b) (keys (store (db s)))) by (apply find_none; exact Hf).
+    constructor; cbn [with_db db new_db store extra libref last_sent].
+    - rewrite keys_snoc. apply nodup_snoc; [exact Hnd | exact Hk].
+    - intros e He. apply in_app_or in He as [He|[<-|[]]]; [apply HU; exact He | exact Hb].
+    - exact Hl.
+    - intros e He Hs. apply in_app_or in He as [He|[<-|[]]]; [|discriminate].
+      destruct (Hlc e He Hs) as [H|(p & Hp & Hps)]; [left; exact H|].
+      right. exists p. split; [apply find_snoc_old; exact Hp | exact Hps].
+    - destruct (last_sent s) as [hd|].
+      + destruct Hh as (HhU & p & Hc & Hne & Hm & Hs). split; [exact HhU|].
+        exists p. repeat split; try assumption. apply chain_ext. exact Hc.
+      + destruct Hh as [-> Hall]. split; [reflexivity|].
+        intros e He. apply in_app_or in He as [He|[<-|[]]]; [apply Hall; exact He | reflexivity].
+  Qed.
+
+  (* below the LIB the undo chain never meets a block that sits above the LIB *)
+  Lemma tail_disjoint d pP x : lib_db d -> in_U (store d) -> NoDup (keys (store d)) ->
+    chain (store d) x (ri r0) pP ->
+    forall f t e, undo_chain f d (ri r0) = Some (ri r0 :: t) -> In e pP -> ~ In (key e) t.
+  Proof.
+    intros Hl HU Hnd Hc f t e Hu He Hin. pose proof (wf_of_U _ Hnd HU) as Hwf.
+    pose proof (above _ HU Hnd _ _ Hc e He) as Hab.
+    assert (Hes : In e (store d)) by (eapply chain_in; eassumption).
+    pose proof (find_in_nodup _ _ Hnd Hes) as Hfe.
+    destruct (find (ri r0) (store d)) as [el|] eqn:Fl.
+    - pose proof (undo_chain_nums d Hwf f (ri r0) t el Hu Fl (key e) e Hin Hfe) as Hlt.
+      pose proof (find_some _ _ _ Fl) as [Hinl Hkl]. rewrite (L_num _ (HU el Hinl) Hkl) in Hlt. lia.
+    - destruct f as [|f]; [discriminate|]. cbn [undo_chain] in Hu. unfold link_of in Hu. rewrite Fl in Hu.
+      cbn in Hu. injection Hu as <-. destruct Hin.
+  Qed.
+
+  (* ---------------------------------------------------------------- helpers for the triggering step *)
+
+  Lemma unsent_map q : unsent (map seg_of q) = map seg_of (filter (fun e => negb (esent e)) q).
+  Proof.
+    induction q as [|e q IH]; [reflexivity|]. unfold unsent in *. cbn [map filter]. cbn [sent seg_of].
+    destruct (esent e); cbn [negb]; [exact IH | cbn [map]; f_equal; exact IH].
+  Qed.
+
+  Lemma linked_app y a c : linked y (a ++ c) ->
+    linked y a /\ linked (match rev a with t :: _ => bid t | [] => y end) c.
+  Proof.
+    revert y. induction a as [|h a IH]; intros y H; cbn [app linked rev] in *; [auto|].
+    destruct H as [Hp H]. destruct (IH _ H) as [H1 H2]. split; [auto|].
+    destruct (rev a) as [|t r] eqn:R; cbn [app]; exact H2.
+  Qed.
+
+  (* along a chain, sent flags are downward closed: the sent entries form a prefix *)
+  Lemma sent_prefix l x y C R : lc l -> NoDup (keys l) -> chain l x y (C ++ R) -> y = ri r0 ->
+    Forall (fun e => esent e = true) C ->
+    exists Rs Ru, R = Rs ++ Ru /\ Forall (fun e => esent e = true) Rs /\ Forall (fun e => esent e = false) Ru.
+  Proof.
+    intros Hlc Hnd. revert x. induction R as [|e R IH] using rev_ind; intros x Hc Hy HC.
+    - exists [], []. repeat split; constructor.
+    - rewrite app_assoc in Hc. destruct (chain_snoc_inv _ _ _ _ _ Hc) as (Hne & Hf & Hc').
+      destruct (IH _ Hc' Hy HC) as (Rs & Ru & -> & Hs & Hu).
+      destruct (esent e) eqn:Es.
+      + (* e sent: everything below it on the chain is sent *)
+        destruct Ru as [|u Ru].
+        * exists (Rs ++ [e]), []. split; [rewrite !app_nil_r; reflexivity|]. split; [|constructor].
+          apply Forall_app. split; [exact Hs | constructor; [exact Es | constructor]].
+        * exfalso.
+          (* the parent of e is the last element of Rs ++ u :: Ru, which is unsent *)
+          assert (Hlast : exists pre pe, C ++ Rs ++ u :: Ru = pre ++ [pe] /\ esent pe = false).
+          { destruct (exists_last (l := u :: Ru)) as (pre & pe & Hpe); [discriminate|].
+            exists (C ++ Rs ++ pre), pe. rewrite Hpe, !app_assoc. split; [reflexivity|].
+            assert (In pe (u :: Ru)) by (rewrite Hpe; apply in_or_app; right; left; reflexivity).
+            rewrite Forall_forall in Hu. apply Hu. assumption. }
+          destruct Hlast as (pre & pe & Heq & Hpe). rewrite Heq in Hc'.
+          destruct (chain_snoc_inv _ _ _ _ _ Hc') as (Hne' & Hf' & _).
+          pose proof (find_some _ _ _ Hf) as [Hin _].
+          destruct (Hlc e Hin Es) as [Hp|(p & Hp & Hps)].
+          -- rewrite Hp, Hy in Hne'. congruence.
+          -- rewrite Hf' in Hp. injection Hp as <-. congruence.
+      + exists Rs, (Ru ++ [e]). split; [rewrite app_assoc; reflexivity|]. split; [exact Hs|].
+        apply Forall_app. split; [exact Hu | constructor; [exact Es | constructor]].
+  Qed.
+
+  Lemma filter_sent_split Rs Ru : Forall (fun e => esent e = true) Rs -> Forall (fun e => esent e = false) Ru ->
+    filter esent (Rs ++ Ru) = Rs /\ filter (fun e => negb (esent e)) (Rs ++ Ru) = Ru.
+  Proof.
+    intros Hs Hu. rewrite !filter_app. split.
+    - replace (filter esent Ru) with (@nil entry).
+      + rewrite app_nil_r. induction Hs as [|e l He Hl IH]; cbn [filter]; [reflexivity|]. rewrite He. f_equal. exact IH.
+      + induction Hu as [|e l He Hl IH]; cbn [filter]; [reflexivity|]. rewrite He. exact IH.
+    - replace (filter (fun e => negb (esent e)) Rs) with (@nil entry).
+      + cbn [app]. induction Hu as [|e l He Hl IH]; cbn [filter]; [reflexivity|]. rewrite He. cbn. f_equal. exact IH.
+      + induction Hs as [|e l He Hl IH]; cbn [filter]; [reflexivity|]. rewrite He. cbn. exact IH.
+  Qed.
+
+  (* ---------------------------------------------------------------- the marked store *)
+
+  Section Marked.
+    Variable l1 : list entry.
+    Variable q : list entry.
+    Hypothesis Hnd : NoDup (keys l1).
+    Hypothesis HU : in_U l1.
+
+    Let ids := map sid (unsent (map seg_of q)).
+    Let l3 := mark_all l1 (unsent (map seg_of q)).
+    Let g := flag_if ids.
+
+    Lemma l3_find x : find x l3 = option_map g (find x l1).
+    Proof. unfold l3, g, ids. apply find_mark_all. Qed.
+
+    Lemma l3_nodup : NoDup (keys l3).
+    Proof. unfold l3. rewrite mark_all_keys. exact Hnd. Qed.
+
+    Lemma l3_inU : in_U l3.
+    Proof.
+      intros e3 He3. destruct (in_mark_all _ _ _ Hnd He3) as (e0 & He0 & ->).
+      rewrite flag_if_eb. apply HU. exact He0.
+    Qed.
+
+    Lemma l3_chain x y p : chain l1 x y p -> chain l3 x y (map g p).
+    Proof. apply chain_refresh; [apply flag_if_eb | apply l3_find]. Qed.
+
+    Lemma ids_spec e : In e q -> esent e = false -> memN (key e) ids = true.
+    Proof.
+      intros He Hs. apply memN_in. unfold ids. rewrite unsent_map, map_map.
+      apply in_map_iff. exists e. split; [reflexivity|]. apply filter_In. split; [exact He | rewrite Hs; reflexivity].
+    Qed.
+
+    Lemma g_sent_q e : In e q -> esent (g e) = true.
+    Proof.
+      intros He. unfold g, flag_if. destruct (esent e) eqn:Es.
+      - destruct (memN (key e) ids); [reflexivity | exact Es].
+      - rewrite (ids_spec e He Es). reflexivity.
+    Qed.
+
+    Lemma g_keeps_sent e : esent e = true -> esent (g e) = true.
+    Proof. intros Es. unfold g, flag_if. destruct (memN (key e) ids); [reflexivity | exact Es]. Qed.
+
+    (* a flagged entry was an unsent entry of q *)
+    Lemma flagged_in_q e : In e l1 -> esent e = false -> esent (g e) = true -> In e q.
+    Proof.
+      intros He Es Hg. unfold g, flag_if in Hg. destruct (memN (key e) ids) eqn:M; [|congruence].
+      apply memN_in in M. unfold ids in M. rewrite unsent_map, map_map in M.
+      apply in_map_iff in M as (e' & Hk & Hin). apply filter_In in Hin as [Hin _].
+      cbn [sid seg_of] in Hk.
+      (* same key in a store with unique keys: same entry, provided e' is stored *)
+      admit.
+    Abort.
+  End Marked.
 End FixedLib.
